@@ -42,8 +42,8 @@ WIDTH = dict(triangles=3, lines=2, polylist=1, polygons=1)
 SEMS = ['VERTEX', 'NORMAL', 'TEXCOORD', 'TEXBINORMAL', 'TEXTANGENT', 'COLOR', 'TANGENT', 'BINORMAL']
 CHECKED_ALL = ('TEXCOORD', 'TEXTANGENT', 'TEXBINORMAL')
 ARITY = dict(TEXCOORD=2)
-NAMES3 = [['X', 'Y', 'Z'], ['X', 'Y', 'Z'], ['X', 'Y', 'Z'], ['A', 'B', 'C'], ['R', 'G', 'B']]
-NAMES2 = [['S', 'T'], ['S', 'T'], ['U', 'V'], ['A', 'B']]
+NAMES3 = [['X', 'Y', 'Z'], ['X', 'Y', 'Z'], ['X', 'Y', 'Z'], ['A', 'B', 'C'], ['R', 'G', 'B'], ['X', 'Y', 'Z', ''], ['X', 'Y', '', 'Z'], ['', '', '']]
+NAMES2 = [['S', 'T'], ['S', 'T'], ['U', 'V'], ['A', 'B'], ['S', 'T', ''], ['', '']]
 INT32MAX = 2 ** 31 - 1
 NS = 'http://www.collada.org/2005/11/COLLADASchema'
 
@@ -115,6 +115,12 @@ def truth(case):
                 reasons.append('oob:' + sem)
             if ncomp != ARITY.get(sem, 3):
                 reasons.append('arity:' + sem)
+    if not ragged and not stream and 'src-stride' not in reasons and 'vcount-total' not in reasons:
+        # an empty primitive: nothing to index, but the property demands the component check all the same
+        for sem, pos, (o, _, si) in checked_inputs(table):
+            rawlen, names = case['sources'][si]
+            if src_shape(route, rawlen, names)[1] != ARITY.get(sem, 3):
+                reasons.append('arity-empty:' + sem)
     order = ['src-stride', 'ragged', 'vcount-total']
     reasons = sorted(set(reasons), key=lambda r: (order.index(r) if r in order else 3 if r.startswith('oob') else 4, r))
     return reasons, cols, n
@@ -289,7 +295,7 @@ def mutate(rng, case, n):
 
 def line_of(case):
     w = [case['kind'], case['route'], 'S']
-    w += ['%d/%s' % (rl, ','.join(nm)) for rl, nm in case['sources']]
+    w += ['%d/%s' % (rl, ','.join(c or '_' for c in nm)) for rl, nm in case['sources']]
     w.append('V')
     w += ['%s/%d' % (vs, si) for vs, si in case['verts']]
     w.append('I')
@@ -512,6 +518,8 @@ def failing(case):
 
 
 def signature(case, bad):
+    if bad[0].startswith('arity-empty:') and bad[1] == 'accepted':
+        return 'arity-empty:accepted'       # one finding, whatever the kind, route and semantic (known_findings.json)
     return '%s:%s:%s:%s' % (case['route'], case['kind'], bad[0], bad[1])
 
 
